@@ -42,3 +42,12 @@ func verifLemmaTrans32(a, b, c uint32) (ab, bc, ac bool) {
 func verifLemmaTrans16(a, b, c uint16) (ab, bc, ac bool) {
 	return sna16LT(a, b), sna16LT(b, c), sna16LT(a, c)
 }
+
+// decode(encode(x)) == x for DATA and I-DATA chunks.
+func verifLemmaRoundTripDATA(p *chunkPayloadData) (q *chunkPayloadData, err error) {
+	raw, _ := p.marshal()
+	q = &chunkPayloadData{}
+	err = q.unmarshal(raw)
+
+	return q, err
+}
